@@ -12,7 +12,7 @@ use tsrun::{api, create_eval_internal_module, Interpreter, InterpreterConfig, Js
 pub fn script_to_ts(script: &serde_json::Value, nv: usize) -> (String, HashMap<u64, u64>) {
     let mut s = String::from("import { order, __cancelOrder__ } from \"tsrun:host\";\n");
     let vars: Vec<String> = (1..=nv).map(|i| format!("x{i}")).collect();
-    s += &format!("let {}, w: any;\n", vars.iter().map(|v| format!("{v}: any")).collect::<Vec<_>>().join(", "));
+    s += &format!("let {}, w: any, wv: any;\n", vars.iter().map(|v| format!("{v}: any")).collect::<Vec<_>>().join(", "));
     let mut ids: HashMap<u64, u64> = HashMap::new(); // var -> order id
     let mut next = 1u64;
     let name = |v: u64| if v as usize > nv { "w".to_string() } else { format!("x{v}") };
@@ -21,8 +21,9 @@ pub fn script_to_ts(script: &serde_json::Value, nv: usize) -> (String, HashMap<u
         match op["o"].as_str().unwrap_or("") {
             "ord" => { ids.insert(v, next); next += 1; s += &format!("x{v} = order(\"p{v}\");\n"); }
             "tord" => { ids.insert(v, next); next += 1; s += &format!("try {{ x{v} = order(\"p{v}\"); }} catch (e) {{ x{v} = \"caught\"; }}\n"); }
-            "await" => s += &format!("await {};\n", name(v)),
-            "tawait" => s += &format!("try {{ await {0}; }} catch (e) {{ {0} = \"caught\"; }}\n", name(v)),
+            // the value the combinator result is fulfilled with is observed too
+            "await" => s += &if v as usize > nv { "wv = await w;\n".to_string() } else { format!("await {};\n", name(v)) },
+            "tawait" => s += &if v as usize > nv { "try { wv = await w; } catch (e) { w = \"caught\"; }\n".to_string() } else { format!("try {{ await {0}; }} catch (e) {{ {0} = \"caught\"; }}\n", name(v)) },
             "comb" => {
                 // inputs: the variables ordered so far, in variable order
                 let ins: Vec<String> = (1..=nv as u64).filter(|v| ids.contains_key(v)).map(|v| format!("x{v}")).collect();
@@ -33,7 +34,7 @@ pub fn script_to_ts(script: &serde_json::Value, nv: usize) -> (String, HashMap<u
         }
     }
     s += "const k = (x: any) => x === undefined ? \"unset\" : x === \"caught\" ? \"caught\" : (x instanceof Promise) ? \"prom\" : \"val\";\n";
-    s += &format!("[{}, k(w)].join(\",\");\n", vars.iter().map(|v| format!("k({v})")).collect::<Vec<_>>().join(", "));
+    s += &format!("[{}, k(w)].join(\",\") + \"|\" + (wv === undefined ? \"-\" : JSON.stringify(wv));\n", vars.iter().map(|v| format!("k({v})")).collect::<Vec<_>>().join(", "));
     (s, ids)
 }
 
@@ -91,8 +92,15 @@ pub fn replay(b: &serde_json::Value, nv: usize, gc_threshold: Option<usize>) -> 
                 }
                 if o.kind == "Complete" {
                     let fin: Vec<String> = b["final"].as_array().map(|a| a.iter().map(|x| x.as_str().unwrap_or("").to_string()).collect()).unwrap_or_default();
-                    let wantv = fin.join(",");
-                    if o.value.as_deref() != Some(wantv.as_str()) { return Err(format!("action {} (step): completion value {:?}, spec says {:?}", k + 1, o.value, wantv)); }
+                    // symbolic values of Orders.tla: "v<i>" = the plain answer to order i (100+i), "p<i>" = the value host promise i was fulfilled with (700+i)
+                    let wg: Vec<String> = b["wgot"].as_array().map(|a| a.iter().map(|x| x.as_str().unwrap_or("").to_string()).collect()).unwrap_or_default();
+                    let symval = |s: &str| -> String { if let Some(r) = s.strip_prefix('v') { format!("{}", 100 + r.parse::<u64>().unwrap_or(0)) } else if let Some(r) = s.strip_prefix('p') { format!("{}", 700 + r.parse::<u64>().unwrap_or(0)) } else { format!("\"{s}\"") } };
+                    let is_race = b["script"].as_array().map(|a| a.iter().any(|op| op["o"] == "comb" && op["k"] == "race")).unwrap_or(false);
+                    let got = o.value.clone().unwrap_or_default();
+                    let (got_kinds, got_w) = match got.split_once('|') { Some((a, c)) => (a.to_string(), c.to_string()), None => (got.clone(), String::new()) };
+                    let want_w = if wg.is_empty() { "-".to_string() } else if wg[0] == "?" { got_w.clone() } else if is_race { symval(&wg[0]) } else { format!("[{}]", wg.iter().map(|x| symval(x)).collect::<Vec<_>>().join(",")) };
+                    let wantv = format!("{}|{}", fin.join(","), want_w);
+                    if format!("{got_kinds}|{got_w}") != wantv { return Err(format!("action {} (step): completion value {:?}, spec says {:?}", k + 1, o.value, wantv)); }
                 }
                 last_kind = o.kind;
             }
@@ -103,7 +111,7 @@ pub fn replay(b: &serde_json::Value, nv: usize, gc_threshold: Option<usize>) -> 
                     let a = &hist[k];
                     let id = a["id"].as_u64().unwrap_or(0);
                     let result = match a["kind"].as_str().unwrap_or("") {
-                        "val" => Ok(RuntimeValue::unguarded(JsValue::Number(5.0))),
+                        "val" => Ok(RuntimeValue::unguarded(JsValue::Number(100.0 + id as f64))),
                         "err" => Err(JsError::type_error("boom")),
                         kind => {
                             let p = if kind == "promL" { api::create_order_promise(&mut it, OrderId(id)) } else { api::create_promise(&mut it) };
@@ -121,7 +129,7 @@ pub fn replay(b: &serde_json::Value, nv: usize, gc_threshold: Option<usize>) -> 
             "settle" => {
                 let pid = act["p"].as_u64().unwrap_or(0);
                 let Some(p) = proms.get(&pid) else { return Err(format!("harness: no promise {pid}")) };
-                let r = if act["s"] == "ful" { api::resolve_promise(&mut it, p, RuntimeValue::unguarded(JsValue::Number(7.0))) }
+                let r = if act["s"] == "ful" { api::resolve_promise(&mut it, p, RuntimeValue::unguarded(JsValue::Number(700.0 + pid as f64))) }
                         else { api::reject_promise(&mut it, p, RuntimeValue::unguarded(JsValue::from("rejected"))) };
                 if let Err(e) = r { return Err(format!("action {} (settle): api call failed: {}", k + 1, e)); }
             }
